@@ -4,6 +4,7 @@ import (
 	"bufio"
 	"context"
 	"encoding/binary"
+	"fmt"
 	"io"
 	"io/ioutil"
 	"log"
@@ -297,6 +298,10 @@ func readmsg(rd io.Reader, p []byte) (n int, err error) {
 	}
 
 	n += binary.Size(msize)
+	if msize < channelMessageHeaderSize {
+		// the size field counts itself, so no frame can be shorter.
+		return n, fmt.Errorf("p9p: invalid frame size %d", msize)
+	}
 	mbody := int(msize) - 4
 
 	if mbody < len(p) {
